@@ -25,6 +25,8 @@ Definition dispatch (e : sexp) : option sexp :=
   | SList (Atom "plain" :: _) => run_plain e
   | SList (Atom "helpdoc" :: _) => run_helpdoc e
   | SList (Atom "usagedoc" :: _) => run_usagedoc e
+  | SList (Atom "rendermap" :: _) => run_rendermap e
+  | SList (Atom "validfile" :: _) => run_validfile e
   | SList (Atom "splitws" :: _) => run_splitws e
   | SList (Atom "become" :: _) => run_become e
   | _ => None
